@@ -103,7 +103,7 @@ def check(ctx):
     creates = [(n, c) for n, c in posts if 'count=' in K.rtxt(func, c)]
     deletes = [(n, c) for n, c in posts if 'delete' in K.rtxt(func, c)]
     ctx.require(len(creates) == 1 and len(deletes) == 1,
-                'create and delete requests of reevaluate')
+                'create and delete requests of reevaluate', rule='C20.1')
     cnode, ccall = creates[0]
     dnode, dcall = deletes[0]
     # ---- C20.1 -----------------------------------------------------------
@@ -212,7 +212,7 @@ def check(ctx):
                   if isinstance(n.ast, ast.Assign) else
                   getattr(n.ast, 'target', None)).endswith("['available']")
             and n not in decs]
-    ctx.require(incs, 'refill of the budget')
+    ctx.require(incs, 'refill of the budget', rule='C20.3')
     for node in incs:
         # the refill loop has its own (name, record) pair
         iloop = K.enclosing_for(graph, node)
@@ -276,7 +276,7 @@ def check(ctx):
                     isinstance(k, ast.Constant) and k.value == 'rate'
                     for k in sub.keys):
                 init = (f, sub)
-    ctx.require(init is not None, 'initial monitor state')
+    ctx.require(init is not None, 'initial monitor state', rule='C20.3')
     ires = Res(init[0])
     fields = {k.value: ires(v)
               for k, v in zip(init[1].keys, init[1].values)}
@@ -321,7 +321,7 @@ def check(ctx):
                   isinstance(n.ast, ast.Assign) and
                   N.txt(n.ast.targets[0]) == evar and
                   isinstance(n.ast.value, ast.Subscript)]
-    ctx.require(len(extra_defs) >= 2, 'scale-down slices')
+    ctx.require(len(extra_defs) >= 2, 'scale-down slices', rule='C20.4')
 
     def policy_of(atom):
         if atom.key[0] != 'cmp' or atom.key[1] != '==' or \
@@ -533,7 +533,7 @@ def check(ctx):
     inst = index.module(INST)
     creates_ = [n for n in ast.walk(inst.tree)
                 if isinstance(n, ast.FunctionDef) and n.name == 'create']
-    ctx.require(creates_, 'instance API create')
+    ctx.require(creates_, 'instance API create', rule='C20.7')
     from ..index import FuncInfo
     cfunc = FuncInfo(inst, None, creates_[0])
     cfunc.qualname = 'instance.create'
@@ -542,7 +542,8 @@ def check(ctx):
     raises = [n for n in cgraph.nodes if n.kind == 'raise_stmt' and
               isinstance(n.ast, ast.Raise) and
               'QuotaExceededError' in N.txt(n.ast)]
-    ctx.require(len(raises) >= 2, 'quota checks of the instance API')
+    ctx.require(len(raises) >= 2, 'quota checks of the instance API',
+        rule='C20.7')
     quotas = set()
     for node in raises:
         ok = False
@@ -611,7 +612,8 @@ def check(ctx):
         fires = [n for n, c in K.nodes_calling(
             ggraph, lambda c: K.is_meth(c, '_log_func_exception') and
             c.args and N.txt(c.args[0]) not in ('None',))]
-        ctx.require(fires, 'callback invocation with data in _get_data')
+        ctx.require(fires, 'callback invocation with data in _get_data',
+            rule='C20.3')
         for node in fires:
             okv = K.guarded_by(ggraph, node, lambda e: any(
                 a.key[0] == 'cmp' and a.key[1] == '!=' and
